@@ -2,7 +2,7 @@
 from ..framework import Case, run_impl
 from .bmpref import *
 
-LEAN_MODULES = ["Op2Proofs.Props.C08"]
+LEAN_MODULES = ["Op2Proofs.Props.C08", "Op2Proofs.Props.C08_Gen"]
 RULE = ("files built by an independent Python BMP encoder (never by the library): depths 1/4/8 x widths 0..70 (every residue of the "
         "row bits mod 32, twice) x heights {-3..3, 17, -17} with random pixels in every row, NON-ZERO padding bytes in the file, "
         "full and partial colour tables (usedColorMapEntries 1..2^bits), odd-but-legal header fields (compression, resolutions, "
@@ -19,7 +19,11 @@ PROVED = ("for ALL byte strings b: C08_read_valid (read b = ok f => Validate pas
           "with a decide-checked witness that this hypothesis cannot be dropped); C08_invert (one flip = rows reversed, height negated, all else "
           "unchanged; two flips = original).  Bridging: C08_gen_pitch (CalcPixelByteWidth/CalculatePitch as translated from the current source = model "
           "formulas on the WHOLE int32 x uint16 range), C08_gen_layout (36 measured offsets/sizes/defaults/ValidBitCounts/signature/Black), "
-          "C08_enc_lengths")
+          "C08_enc_lengths; Props/C08_Gen.lean (validation functions translated from the current source into Gen/Validate.lean, each equal to the "
+          "model's decision for ALL values of the C++ field types): C08_gen_imageHeader_validate (ImageHeader::Validate with VerifyValidBitCount / "
+          "VerifyDimensions / CalcMaxIndexedPaletteSize inlined = ImageHeader.Valid), C08_gen_isValidBitCount, C08_gen_isIndexedImage, "
+          "C08_gen_calcMaxIndexedPaletteSize, C08_gen_verifyPixelSize (composed with the translated CalculatePitch = verifyPixelSize), "
+          "C08_gen_verifyPaletteSize (= verifyPalette), C08_gen_verifyIndexedForSerialization")
 PARTIAL = ("nothing of the statement is left unproved for the model.  operator== of the C++ objects is structural equality of the model records "
            "(checked by the eq= flag of bmp.create / bmp.invert on every case); the accepted-file theorems carry the harness allocation cap "
            "(pixel section <= 1 GiB) inside `read`")
